@@ -4,8 +4,8 @@ from checks.tsutil import *
 from checks.orswotgen import *
 
 ID = 'C04'
-RULE = ('one case = one fresh OrSWotSet<1|2>, 1-12 inserts/deletes with pairwise distinct stamps from <=3 origins on <=4 keys through '
-        'random sources, in a random or exhaustively permuted arrival order; before each op `will_apply`, after it the return value and a dump; '
+RULE = ('one case = one fresh OrSWotSet<1|2>, 1-12 inserts/deletes with pairwise distinct stamps from <=3 origins on <=4 keys through ' 'random sources (a third of the cases re-deliver 1-3 operations unchanged, through the same or the other source), '
+        'in a random or exhaustively permuted arrival order; before each op `will_apply`, after it the return value and a dump; '
         'at the end the dump is compared with the Lean LWW oracle (printed only when the decidable Window hypothesis holds) and the cut-offs are probed; '
         'half of the cases also contain out-of-window stamps (gaps F, F+4, 2F) where only model/implementation agreement is checked; '
         'non-trivial = at least two operations on one key arriving in descending stamp order or an insert/delete conflict; distinct by hash')
@@ -37,6 +37,11 @@ def gen_ops(rng, window):
     ops = []
     for _ in range(rng.range(1, 12)):
         ops.append((rng.choice(['ins', 'ins', 'del']), rng.below(n), rng.choice(keys), pool.stamp()))
+    # re-deliveries: the same operation (same key and stamp) reaches the replica again, through the same or the other source
+    if rng.chance(1, 3):
+        for _ in range(rng.range(1, 3)):
+            kind, _, k, t = rng.choice(ops)
+            ops.insert(rng.range(0, len(ops)), (kind, rng.below(n), k, t))
     return ops, n, pool.origins
 
 
@@ -75,8 +80,8 @@ def oracle(case, impl):
     bad = []
     prev = ({}, {})
     will = None
-    stamps = [int(l.split()[-1]) for l in case if l.split()[0] in ('ins', 'del')]
-    distinct = len(set(stamps)) == len(stamps)
+    opset = {(l.split()[0], l.split()[3], l.split()[4]) for l in case if l.split()[0] in ('ins', 'del')}
+    distinct = len({o[2] for o in opset}) == len(opset)      # exact re-deliveries allowed; two different operations never share a stamp
     for i, (line, out) in enumerate(zip(case, impl)):
         t = line.split()
         if out.startswith(('crash', 'panic')):
